@@ -546,11 +546,66 @@ def call_matches(t, pats):
     return False
 
 
+def rename_aliases(raw, reg):
+    """pure renames relative to the registry the rules were written against:
+    returns (field_alias {(struct_path, new): old}, fn_alias {new_path: old_path})"""
+    fa, fna = {}, {}
+    adts = {a['path']: a for a in raw['adts']}
+    for spath, rf in reg.get('fields', {}).items():
+        a = adts.get(spath)
+        if a is None or a['kind'] != 'Struct' or len(a['variants']) != 1:
+            continue
+        act = {f['name']: f['ty'] for f in a['variants'][0]['fields']}
+        missing = [m for m in rf if m not in act]
+        extra = [e for e in act if e not in rf]
+        used = set()
+        for m in missing:
+            cands = [e for e in extra if act[e] == rf[m] and e not in used]
+            same_ty_missing = [m2 for m2 in missing if rf[m2] == rf[m]]
+            if len(cands) == 1 and len(same_ty_missing) == 1:
+                fa[(spath, cands[0])] = m
+                used.add(cands[0])
+    bodies = {b['path']: b for b in raw['bodies']}
+    def norm(sig):
+        return re.sub(r"'[a-z_0-9]+", "'_", sig or '')
+    extra_fns = [p for p, b in bodies.items() if b['kind'] != 'Closure' and '{closure' not in p and not p.startswith('<') and p not in reg.get('fns', {})]
+    for p, sig in reg.get('fns', {}).items():
+        if p in bodies:
+            continue
+        parent = p.rsplit('::', 1)[0]
+        cands = [q for q in extra_fns if q.rsplit('::', 1)[0] == parent and norm(bodies[q].get('sig')) == norm(sig) and q not in fna]
+        others = [p2 for p2, s2 in reg['fns'].items() if p2 not in bodies and p2.rsplit('::', 1)[0] == parent and norm(s2) == norm(sig)]
+        if len(cands) == 1 and len(others) == 1:
+            fna[cands[0]] = p
+    return fa, fna
+
+
 class Facts:
     def __init__(self, path):
         t0 = time.time()
         with open(path) as f:
-            self.raw = json.load(f)
+            text = f.read()
+        self.raw = json.loads(text)
+        self.renames = {}
+        regp = os.path.join(os.path.dirname(os.path.abspath(__file__)), 'registry.json')
+        if os.path.exists(regp):
+            fa, fna = rename_aliases(self.raw, json.load(open(regp)))
+            if fa or fna:
+                for (spath, new), old in fa.items():
+                    short = spath.rsplit('::', 1)[-1]
+                    text = text.replace(json.dumps('.%s.%s' % (short, new)), json.dumps('.%s.%s' % (short, old)))
+                    self.renames['%s.%s' % (spath, new)] = old
+                for new, old in fna.items():
+                    esc_new, esc_old = json.dumps(new)[1:-1], json.dumps(old)[1:-1]
+                    text = re.sub(re.escape(esc_new) + r'(?=("|::\{))', lambda m: esc_old, text)
+                    self.renames[new] = old
+                self.raw = json.loads(text)
+                for (spath, new), old in fa.items():
+                    for a in self.raw['adts']:
+                        if a['path'] == spath:
+                            for f2 in a['variants'][0]['fields']:
+                                if f2['name'] == new:
+                                    f2['name'] = old
         self.path = path
         self.crate = self.raw['crate']
         self.bodies = {}
